@@ -137,7 +137,7 @@ class FuncEffects:
                 elif k == 'table' and e.attr == 'matrix_data':
                     out.add(('array', t, '_data'))
                 elif k == 'array' and e.attr in ('T', 'data', 'indices',
-                                                 'indptr'):
+                                                 'indptr', 'row', 'col'):
                     out.add(('array', t, f))
             return out
         if isinstance(e, ast.Subscript):
@@ -157,6 +157,14 @@ class FuncEffects:
             return out
         if isinstance(e, ast.IfExp):
             return self.root_of(e.body) | self.root_of(e.orelse)
+        if isinstance(e, ast.BinOp) and isinstance(e.op, ast.Add):
+            # [self] + others : a list holding both
+            return self.root_of(e.left) | self.root_of(e.right)
+        if isinstance(e, (ast.List, ast.Tuple)):
+            out = set()
+            for x in e.elts:
+                out |= self.root_of(x)
+            return out
         if isinstance(e, ast.Call):
             name = call_name(e) or ''
             if isinstance(e.func, ast.Attribute):
@@ -237,6 +245,32 @@ class FuncEffects:
 
     def _analyse(self):
         f = self.func
+        # lists of tables built from a table-typed parameter: others[:],
+        # list(others), plus what is inserted / appended into them
+        for n in body_walk(f):
+            if isinstance(n, ast.Assign) and isinstance(n.targets[0],
+                                                        ast.Name):
+                v = n.value
+                src = None
+                if isinstance(v, ast.Subscript) and isinstance(
+                        v.value, ast.Name):
+                    src = v.value.id
+                elif isinstance(v, ast.Call) and call_name(v) in (
+                        'list', 'tuple') and v.args and isinstance(
+                        v.args[0], ast.Name):
+                    src = v.args[0].id
+                elif isinstance(v, ast.Name):
+                    src = v.id
+                if src in self.table_like:
+                    self.roots.setdefault(n.targets[0].id, set()).add(
+                        ('table', 'param:%s' % src, None))
+        for n in body_walk(f):
+            if isinstance(n, ast.Call) and isinstance(n.func, ast.Attribute) \
+                    and n.func.attr in ('insert', 'append') and isinstance(
+                        n.func.value, ast.Name) and \
+                    n.func.value.id in self.roots and n.args and isinstance(
+                        n.args[-1], ast.Name) and n.args[-1].id == 'self':
+                self.roots[n.func.value.id].add(('table', 'self', None))
         # fixpoint over simple assignments (flow-insensitive union)
         changed = True
         rounds = 0
@@ -301,6 +335,49 @@ class FuncEffects:
         for n in body_walk(f):
             self._effects_of(n)
 
+    def _reaching_roots(self, name, node, fallback):
+        """Roots of `name` restricted to the assignments that reach `node`
+        (flow-sensitive refinement of the union used elsewhere)."""
+        try:
+            from .cfg import CFG
+            if not hasattr(self, '_cfg'):
+                self._cfg = CFG(self.func)
+            cfg = self._cfg
+            here = [c for c in cfg.stmt_nodes() if c.kind == 'stmt' and any(
+                x is node for x in ast.walk(c.stmt)) and not isinstance(
+                c.stmt, (ast.For, ast.While, ast.If, ast.With, ast.Try))]
+            if not here:
+                return fallback
+            defs = {}
+            for c in cfg.stmt_nodes():
+                st = c.stmt
+                if c.kind == 'stmt' and isinstance(st, ast.Assign) and any(
+                        isinstance(t, ast.Name) and t.id == name
+                        for t in st.targets):
+                    defs[c] = st.value
+            if not defs:
+                return fallback
+            out = set()
+            seen = set()
+            stack = list(cfg.pred[here[0]])
+            reached_entry = False
+            while stack:
+                c = stack.pop()
+                if c in seen:
+                    continue
+                seen.add(c)
+                if c in defs:
+                    out |= self.root_of(defs[c])
+                    continue
+                if c is cfg.entry:
+                    reached_entry = True
+                stack.extend(cfg.pred[c])
+            if reached_entry:
+                return fallback        # may be a parameter / loop target
+            return out
+        except Exception:
+            return fallback
+
     def _repr_only_store(self, target_field, value, owner_roots):
         """``X._data = X._data.tocsr()`` and the like."""
         if target_field != '_data':
@@ -352,6 +429,14 @@ class FuncEffects:
                                 'kind': 'observable', 'how': 'augassign'})
         if isinstance(n, ast.Call):
             name = call_name(n) or ''
+            # numpy's out= writes the result into an existing array
+            outk = kwarg(n, 'out')
+            if outk is not None:
+                for k, tb, f in self.root_of(outk):
+                    if k == 'array':
+                        self.writes.append({
+                            'node': n, 'table': tb, 'field': f,
+                            'kind': 'observable', 'how': 'out='})
             if name in KERNELS and n.args:
                 roots = self.root_of(n.args[KERNELS[name]])
                 self.kernel_calls.append({'node': n, 'kernel': name,
@@ -364,6 +449,10 @@ class FuncEffects:
             if isinstance(n.func, ast.Attribute):
                 attr = n.func.attr
                 recv = self.root_of(n.func.value)
+                if attr in MUTATING_CALLS and isinstance(n.func.value,
+                                                         ast.Name):
+                    # which assignments of the name can reach this call?
+                    recv = self._reaching_roots(n.func.value.id, n, recv)
                 for k, tb, f in recv:
                     if k == 'array' and attr in REPR_ONLY_CALLS:
                         self.writes.append({'node': n, 'table': tb,
